@@ -567,3 +567,89 @@ func shapes(as []cursorAsg) string {
 	}
 	return strings.Join(s, ",")
 }
+
+// rulePredicateKey: R-PREDICATE-KEY — a leafref predicate always yields a keyed path element.
+func rulePredicateKey(c *Ctx, r *Report) {
+	r.Rule("R-PREDICATE-KEY", "leafRefToGNMIPath gives the path element of a predicate `[k = <path or literal>]` the key k on every non-error path — with the empty string when the referenced leaf is unset — because the lookup runs with partial-key matching, where an element without keys selects every entry", 2)
+	f := c.MustFunc(r, "ytypes", "leafRefToGNMIPath")
+	if f == nil {
+		return
+	}
+	info := f.Info()
+	var sw *ast.SwitchStmt
+	ast.Inspect(f.Decl.Body, func(n ast.Node) bool {
+		if s, ok := n.(*ast.SwitchStmt); ok && s.Tag == nil && sw == nil {
+			sw = s
+		}
+		return true
+	})
+	if sw == nil {
+		r.Und("ytypes.leafRefToGNMIPath:switch", c.Pos(f.Decl.Pos()), "predicate dispatch not found")
+		return
+	}
+	n := 0
+	for _, cc := range sw.Body.List {
+		cl := cc.(*ast.CaseClause)
+		if len(cl.Body) == 0 {
+			continue // no predicate
+		}
+		n++
+		key := fmt.Sprintf("ytypes.leafRefToGNMIPath:predicate-arm#%d", n)
+		// an arm-level store of the Key map that contains k.
+		ok := false
+		for _, s := range cl.Body {
+			as, isAs := s.(*ast.AssignStmt)
+			if !isAs || len(as.Lhs) != 1 {
+				continue
+			}
+			l := ast.Unparen(as.Lhs[0])
+			if ix, isIx := l.(*ast.IndexExpr); isIx {
+				l = ix.X
+				if sel, isSel := ast.Unparen(l).(*ast.SelectorExpr); isSel && sel.Sel.Name == "Key" {
+					ok = true
+				}
+				continue
+			}
+			if sel, isSel := l.(*ast.SelectorExpr); isSel && sel.Sel.Name == "Key" {
+				if clit, isLit := ast.Unparen(as.Rhs[0]).(*ast.CompositeLit); isLit && len(clit.Elts) == 1 {
+					ok = true
+				}
+			}
+		}
+		_ = info
+		r.Check(ok, key, c.Pos(cl.Pos()), "the element's Key map receives k at the arm's top level (all non-error paths)", "a predicate arm of leafRefToGNMIPath sets the element's key only on some paths (e.g. only when the referenced leaf resolves to a node): with the source leaf unset the element has no key, matches every list entry under partial-key matching, and a dangling reference is accepted")
+	}
+}
+
+// ruleVisitorCopy: R-VISITOR-COPY — util's memo visitor derives the child visitor by mutating a copy.
+func ruleVisitorCopy(c *Ctx, r *Report) {
+	r.Rule("R-VISITOR-COPY", "a util.Visitor whose Visit assigns to its receiver's fields to derive the visitor for the children has a value receiver and is stored by value: with a pointer receiver the assignment leaks to later siblings (the memo node's Parent would be the previously visited node, not the parent)", 1)
+	n := 0
+	for _, f := range c.AllFuncs("util") {
+		if f.Decl.Recv == nil || f.Decl.Name.Name != "Visit" || len(f.Decl.Recv.List) == 0 || len(f.Decl.Recv.List[0].Names) == 0 {
+			continue
+		}
+		info := f.Info()
+		recv := info.ObjectOf(f.Decl.Recv.List[0].Names[0])
+		writes := false
+		ast.Inspect(f.Decl.Body, func(x ast.Node) bool {
+			if as, ok := x.(*ast.AssignStmt); ok {
+				for _, l := range as.Lhs {
+					if sel, ok := ast.Unparen(l).(*ast.SelectorExpr); ok && ObjOf(info, sel.X) == recv {
+						writes = true
+					}
+				}
+			}
+			return true
+		})
+		if !writes {
+			continue
+		}
+		n++
+		_, isPtr := f.Decl.Recv.List[0].Type.(*ast.StarExpr)
+		r.Check(!isPtr, f.Name+":value-receiver", c.Pos(f.Decl.Pos()), "Visit mutates a copy of the visitor", f.Name+" assigns to its receiver through a pointer: the state meant for the children of one node is seen by its later siblings (leafref memo nodes get the wrong Parent)")
+	}
+	if n == 0 {
+		r.Und("util:Visit-with-receiver-writes", "-", "no visitor deriving child state from its receiver found (shape changed)")
+	}
+}
